@@ -104,6 +104,8 @@ type H struct {
 	// overrun"); from then on event streams may legitimately have gaps.
 	Overflow         bool
 	ExpectNoOverflow bool
+	ShareHB          bool
+	hb               kcache.HandlerBuilder
 	// OnCbAct is told about an API call a monitor callback is about to make
 	OnCbAct func(n *NodeRT, act string)
 	OverflowSeen     bool // any subscriber-buffer overflow was logged (set in every mode)
@@ -144,8 +146,34 @@ func NewH(srv *Server, rootFilter FilterSpec, period time.Duration, logYield boo
 
 // Start builds the real controller over the simulated client.
 func (h *H) Start() {
-	b := kcache.NewBuilder().Context(h.Ctx).Log(h.Log).Client(h.Srv).Filter(h.RootFilter.Build())
-	b.Lister().RefreshPeriod(h.Period)
+	// the builder's setters are called in a drawn order (and the lister handle
+	// is taken before or after the client is set): configuration must not depend
+	// on the order in which it is given
+	b := kcache.NewBuilder()
+	lb := b.Lister()
+	early := detsim.Choose("builder-lister-handle-early", 2) == 1
+	steps := []func(){
+		func() { b.Context(h.Ctx) },
+		func() { b.Log(h.Log) },
+		func() { b.Client(h.Srv) },
+		func() { b.Filter(h.RootFilter.Build()) },
+		func() {
+			if early {
+				lb.RefreshPeriod(h.Period)
+			} else {
+				b.Lister().RefreshPeriod(h.Period)
+			}
+		},
+	}
+	if detsim.Choose("builder-split-client", 4) == 0 {
+		// the client given to lister and watcher separately
+		steps[2] = func() { b.Lister().Client(h.Srv); b.Watcher().Client(h.Srv) }
+	}
+	for len(steps) > 0 {
+		i := detsim.Choose("builder-order", len(steps))
+		steps[i]()
+		steps = append(steps[:i], steps[i+1:]...)
+	}
 	c, err := b.Create()
 	if err != nil {
 		detsim.Fail("infra:builder", "builder.Create: %v", err)
@@ -611,7 +639,16 @@ func (h *H) handler(n *NodeRT) kcache.Handler {
 			exit(enter(kind, []Spec{s}))
 		}
 	}
-	return kcache.BuildHandler().
+	// ShareHB: every monitor's handler is derived from one long-lived builder
+	// (a template builder reused after Create()), not from a fresh one
+	hb := kcache.BuildHandler()
+	if h.ShareHB {
+		if h.hb == nil {
+			h.hb = kcache.BuildHandler()
+		}
+		hb = h.hb
+	}
+	return hb.
 		OnInitialize(func(objs []metav1.Object) { exit(enter("init", specsOf(objs))) }).
 		OnCreate(one("create")).
 		OnUpdate(one("update")).
